@@ -116,8 +116,14 @@ def success_case(asm, acc, case):
             os.makedirs(os.path.dirname(outp))
             args += ['-o', outp]
         labp = None
+        if case['explicit_o'] and case['idx'] % 3 == 2:
+            # the outputs of one run share directory and stem (prog.bin / prog.lbl), or the binary has no extension at all
+            outp = os.path.join(root, 'out', ['prog.bin', 'firmware', 'a.b.bin'][case['idx'] % 9 // 3])
+            args[-1] = outp
         if case['labels']:
             labp = os.path.join(root, 'labels.txt')
+            if case['explicit_o'] and case['idx'] % 3 == 2:
+                labp = os.path.splitext(outp)[0] + '.lbl'
             args += ['-l', labp]
         if case['hex'] is not None:
             args += ['--hex-offset', case['hex']]
